@@ -94,7 +94,15 @@ impl GsWorld {
         match t[0] {
             "time" => {
                 env.ledger().set_timestamp(pu64(t[1]));
-                env.ledger().set_sequence_number(pu32(t[2]));
+                // the sequence number never moves backwards (ticks may have advanced it)
+                let cur = env.ledger().sequence();
+                env.ledger().set_sequence_number(cur.max(pu32(t[2])));
+                ("ok".into(), String::new())
+            }
+            "tick" => {
+                // some ledgers close (fewer than any persistent / instance entry lives): nothing observable may change
+                let cur = env.ledger().sequence();
+                env.ledger().set_sequence_number(cur + pu32(t[1]));
                 ("ok".into(), String::new())
             }
             "gs.new" => {
